@@ -126,3 +126,11 @@ package sctp
 //@   requires#pkt pkt != nil
 //@   tags C03
 //@   safety C03
+
+// ---- C19/C12: heartbeat ----
+
+//@ func verifLemmaHeartbeatCarriesInfo
+//@   requires#info info != nil && len(info.heartbeatInformation) <= 1000
+//@   ensures#carries-info err == nil ==> len(out) >= 8+len(info.heartbeatInformation) && out[0] == 4
+//@   ensures#encodes err == nil
+//@   tags C19 C12
